@@ -48,6 +48,7 @@ double log(double x)
 #define ISNAN(x) ((x) != (x))
 #define FINITE(x) ((x) - (x) == 0)
 #define ABS(x) ((x) < 0 ? -(x) : (x))
+#define FEQ(u, v) ((u) == (v) || ((u) != (u) && (v) != (v))) /* same IEEE value, or both NaN */
 #define AT(a, i) real_of((real_bits)(a)[i])
 #define FOR_ORDER(CALL) { a_uint N; for (N = NLO; N <= NHI; ++N) { if (n == N) { CALL; } } }
 
@@ -234,12 +235,13 @@ static void t_plu_inv(a_uint n, unsigned long const *a, unsigned const *pv)
     a_uint *p = ufilled(pv, n);
     a_real *b = result(n);
     a_real *I = result((a_size)n * n);
+    a_real *J = result((a_size)n * n);
     ASSUME_PERM(pv, n);
     a_real_plu_inv(n, A, p, b, I);
-    a_real_plu_inv_(n, A, p, I);
+    a_real_plu_inv_(n, A, p, J);
     UNCHANGED(A, a, n * n, "plu_inv/inv_: factor matrix unchanged");
     UUNCHANGED(p, pv, n, "plu_inv/inv_: permutation vector unchanged");
-    free(A); free(p); free(b); free(I);
+    free(A); free(p); free(b); free(I); free(J);
 }
 void h_plu_inv(void)
 {
@@ -414,7 +416,7 @@ void h_llt_strong(void)
         a_real_##K##_upper(n, A, x); \
         a_real_##K##_solve(n, A, x); \
         a_real_##K##_inv(n, A, b, I); \
-        a_real_##K##_inv_(n, A, I); \
+        a_real_##K##_inv_(n, A, M); \
         (void)a_real_##K##_det(n, A); \
         (void)a_real_##K##_lndet(n, A); \
         free(I); \
@@ -457,3 +459,83 @@ void h_llt_strong(void)
         else { ASSERT(IS0(M[r * n + c]), "llt_L: zero above the diagonal"); } } } }
 SOLVE_FAMILY(ldl, LDL_EXTRA)
 SOLVE_FAMILY(llt, LLT_EXTRA)
+
+/* ================= exactly singular inputs are reported as failure ================= */
+/* diagonal matrices: d[j] vanishes (PLU, LDL) resp. is zero or negative (LLT) for one j, the other diagonal
+   entries are finite with d >= threshold (LLT, else |d| >= threshold).  The elimination steps before j are exact
+   (0/d, 0*0, x - 0), so the vanishing pivot is met at step j > 0 as well. */
+static void t_singular(a_uint n, unsigned long const *dv, a_uint j)
+{
+    a_real *A = block((a_size)n * n);
+    a_real *B = block((a_size)n * n);
+    a_real *C = block((a_size)n * n);
+    a_uint *p = ublock(n);
+    int sign = 0;
+    a_uint r, c;
+    for (r = 0; r < n; ++r)
+    {
+        a_real d = AT(dv, r);
+        ASSUME(FINITE(d));
+        if (r != j) { ASSUME(d >= A_REAL_MIN); }
+        for (c = 0; c < n; ++c) { A[r * n + c] = B[r * n + c] = C[r * n + c] = (r == c) ? d : 0; }
+    }
+    ASSUME(AT(dv, j) <= 0);
+    C[j * n + j] = AT(dv, j);           /* LLT: zero or negative pivot */
+    A[j * n + j] = B[j * n + j] = 0;    /* PLU, LDL: exactly vanishing pivot */
+    for (r = 0; r < n; ++r) { if (r != j) { ND(_Bool, neg, bool); if (neg) { A[r * n + r] = -A[r * n + r]; B[r * n + r] = -B[r * n + r]; } } }
+    ASSERT(a_real_plu(n, A, p, &sign) == A_FAILURE, "plu: a diagonal matrix with an exactly zero diagonal entry (zero pivot column at any step) is reported as failure");
+    ASSERT(a_real_ldl(n, B) == A_FAILURE, "ldl: a diagonal matrix with an exactly zero diagonal entry (vanishing pivot at any step) is reported as failure");
+    ASSERT(a_real_llt(n, C) == A_FAILURE, "llt: a diagonal matrix with a zero or negative diagonal entry (non-positive pivot at any step) is reported as failure");
+    free(A); free(B); free(C); free(p);
+}
+void h_singular(void)
+{
+    ND(a_uint, n, u32); ORDER(n); ND_U64S(dv, MAXD); ND(a_uint, j, u32);
+    ASSUME(j < n);
+    { a_uint N, J; for (N = NLO; N <= NHI; ++N) { for (J = 0; J < N; ++J) { if (n == N && j == J) { t_singular(N, dv, J); } } } }
+    VERIF_CANARY();
+}
+/* duplicated rows, order 2: [[a, b], [a, b]] -> multiplier a/a == 1, b - b*1 == 0 exactly -> failure */
+void h_duplicate_rows(void)
+{
+    ND(a_real, a, double); ND(a_real, b, double);
+    ASSUME(FINITE(a) && FINITE(b) && ABS(a) >= A_REAL_MIN);
+    a_real *A = block(4);
+    a_uint *p = ublock(2);
+    int sign = 0;
+    A[0] = a; A[1] = b; A[2] = a; A[3] = b;
+    ASSERT(a_real_plu(2, A, p, &sign) == A_FAILURE, "plu: a 2 x 2 matrix with duplicated rows is reported as failure");
+    free(A); free(p);
+    VERIF_CANARY();
+}
+
+/* ================= the buffered and the in-place inverse agree (cvc5: identity of IEEE terms) =================
+   Integer-valued factor entries (any int) only so that the inputs are plain symbolic terms without byte-level
+   reinterpretation, which the SMT back end cannot take; the comparison itself does not depend on the values. */
+static void t_inv_agree(a_uint n, int const *ai, unsigned const *pv)
+{
+    a_real *A = block((a_size)n * n);
+    a_uint *p = ufilled(pv, n);
+    a_real *b = result(n);
+    a_real *I = result((a_size)n * n);
+    a_real *J = result((a_size)n * n);
+    a_uint i;
+    ASSUME_PERM(pv, n);
+    for (i = 0; i < n * n; ++i) { A[i] = (a_real)ai[i]; }
+    a_real_plu_inv(n, A, p, b, I);
+    a_real_plu_inv_(n, A, p, J);
+    for (i = 0; i < n * n; ++i) { ASSERT(FEQ(I[i], J[i]), "plu_inv and plu_inv_ agree: element for element the same IEEE value (or both NaN)"); }
+    a_real_ldl_inv(n, A, b, I);
+    a_real_ldl_inv_(n, A, J);
+    for (i = 0; i < n * n; ++i) { ASSERT(FEQ(I[i], J[i]), "ldl_inv and ldl_inv_ agree: element for element the same IEEE value (or both NaN)"); }
+    a_real_llt_inv(n, A, b, I);
+    a_real_llt_inv_(n, A, J);
+    for (i = 0; i < n * n; ++i) { ASSERT(FEQ(I[i], J[i]), "llt_inv and llt_inv_ agree: element for element the same IEEE value (or both NaN)"); }
+    free(A); free(p); free(b); free(I); free(J);
+}
+void h_inv_agree(void)
+{
+    ND(a_uint, n, u32); ORDER(n); ND_INTS(ai, MAXE); ND_U32S(pv, MAXD);
+    FOR_ORDER(t_inv_agree(N, ai, pv))
+    VERIF_CANARY();
+}
